@@ -4,29 +4,73 @@
 (* raises AdbConnectionError, an empty device path raises DevicePathInvalidError, and in both cases   *)
 (* not a byte is written to the transport and no local file is created.  Where both conditions hold   *)
 (* the property leaves the choice of the exception open.                                              *)
+(*                                                                                                    *)
+(* Beyond the one-call operations the object has one operation that is spread over several calls:     *)
+(* streaming_shell() hands out a generator; nothing happens until its first item is requested, and    *)
+(* that request is the operation as far as this property is concerned (it is the step that sends the  *)
+(* OPEN).  The generator is modelled as a slot `gen` with its own life cycle and with the connection  *)
+(* epoch it was started in.  close() itself can fail (the transport's close raises), and a connect()  *)
+(* attempt can end by any kind of exception, including one that is not an Exception (a cancelled      *)
+(* asyncio task): in every case the attempt ends the previous availability.                           *)
 EXTENDS Naturals, Sequences, TLC, Json
 CONSTANTS FailKinds      \* ways a connect() can fail
 PathApis == {"list", "stat", "pull", "push"}
 OtherApis == {"shell", "exec_out", "streaming_shell", "root", "reboot"}
-VARIABLES available, last
-vars == <<available, last>>
-Init == available = FALSE /\ last = [op |-> "init"]
+VARIABLES available, gen, last
+\* gen: "none" | "fresh" (handed out, nothing requested yet) | "live" (started in the current connection, items left)
+\*      | "stale" (started in a connection that has ended since) | "done"
+vars == <<available, gen, last>>
+Init == available = FALSE /\ gen = "none" /\ last = [op |-> "init"]
+Ended(g) == IF g = "live" THEN "stale" ELSE g            \* what a connection change does to the generator
 \* outcome classes: "ok" (returns normally), or the exception class
-ConnectOk == /\ available' = TRUE /\ last' = [op |-> "connect_ok", out |-> "ok", wrote |-> TRUE, avail |-> TRUE]
-ConnectFail(k) == /\ available' = FALSE /\ last' = [op |-> "connect_fail", kind |-> k, out |-> "raises", wrote |-> TRUE, avail |-> FALSE]
-Close == /\ available' = FALSE /\ last' = [op |-> "close", out |-> "ok", wrote |-> FALSE, avail |-> FALSE]
+ConnectOk == /\ available' = TRUE /\ gen' = Ended(gen)
+             /\ last' = [op |-> "connect_ok", out |-> "ok", wrote |-> TRUE, avail |-> TRUE]
+ConnectFail(k) == /\ available' = FALSE /\ gen' = Ended(gen)
+                  /\ last' = [op |-> "connect_fail", kind |-> k, out |-> "raises", wrote |-> TRUE, avail |-> FALSE]
+Close == /\ available' = FALSE /\ gen' = Ended(gen)
+         /\ last' = [op |-> "close", out |-> "ok", wrote |-> FALSE, avail |-> FALSE]
+CloseFail == /\ available' = FALSE /\ gen' = Ended(gen)        \* the transport's close() raises: the object is closed all the same
+             /\ last' = [op |-> "close_fail", out |-> "raises", wrote |-> FALSE, avail |-> FALSE]
 Op(api, empty) ==
-  /\ available' = available
+  /\ available' = available /\ gen' = gen
   /\ \/ /\ empty /\ last' = [op |-> "op", api |-> api, empty |-> empty, out |-> "DevicePathInvalidError", wrote |-> FALSE, avail |-> available]
      \/ /\ ~available /\ last' = [op |-> "op", api |-> api, empty |-> empty, out |-> "AdbConnectionError", wrote |-> FALSE, avail |-> available]
      \/ /\ available /\ ~empty /\ last' = [op |-> "op", api |-> api, empty |-> empty, out |-> "ok", wrote |-> TRUE, avail |-> available]
-Next == \/ ConnectOk \/ Close \/ (\E k \in FailKinds : ConnectFail(k))
+\* streaming_shell() is called: no I/O.  An implementation may refuse at once when the device is unavailable.
+GenCreate ==
+  /\ available' = available
+  /\ \/ /\ gen' = "fresh" /\ last' = [op |-> "gen_create", out |-> "ok", wrote |-> FALSE, avail |-> available]
+     \/ /\ ~available /\ gen' = gen /\ last' = [op |-> "gen_create", out |-> "AdbConnectionError", wrote |-> FALSE, avail |-> available]
+\* an item is requested from the generator
+GenNext ==
+  /\ gen # "none" /\ available' = available
+  /\ \/ /\ gen = "fresh" /\ ~available /\ gen' = "done"
+        /\ last' = [op |-> "gen_next", was |-> gen, out |-> "AdbConnectionError", wrote |-> FALSE, avail |-> available]
+     \/ /\ gen = "fresh" /\ available /\ gen' \in {"live", "done"}
+        /\ last' = [op |-> "gen_next", was |-> gen, out |-> "ok", wrote |-> TRUE, avail |-> available]
+     \/ /\ gen = "live" /\ gen' \in {"live", "done"}
+        /\ last' = [op |-> "gen_next", was |-> gen, out |-> "ok", wrote |-> TRUE, avail |-> available]
+     \/ /\ gen = "live" /\ gen' = "done"
+        /\ last' = [op |-> "gen_next", was |-> gen, out |-> "stop", wrote |-> TRUE, avail |-> available]
+     \/ /\ gen = "stale" /\ gen' = "done"        \* its connection is gone: it fails somehow.  The property speaks about operations that start on an
+                                                 \* unconnected device, not about the rest of one that was cut off, so the model leaves `wrote` open
+                                                 \* (the library: a generator whose packets were parked offers its OKAY to the closed transport when the
+                                                 \* transport's close() had raised, because then the store is not cleared - see DESIGN.md, observations)
+        /\ last' = [op |-> "gen_next", was |-> gen, out |-> "raises", wrote |-> TRUE, avail |-> available]
+     \/ /\ gen = "done" /\ gen' = "done"
+        /\ last' = [op |-> "gen_next", was |-> gen, out |-> "stop", wrote |-> FALSE, avail |-> available]
+Next == \/ ConnectOk \/ Close \/ CloseFail \/ (\E k \in FailKinds : ConnectFail(k))
         \/ (\E a \in PathApis, e \in BOOLEAN : Op(a, e)) \/ (\E a \in OtherApis : Op(a, FALSE))
+        \/ GenCreate \/ GenNext
 Spec == Init /\ [][Next]_vars
 \* properties of the specification (checked by TLC on the graph)
-GuardFirst == [][(last'.op = "op" /\ ~available) => (last'.out \in {"AdbConnectionError", "DevicePathInvalidError"} /\ ~last'.wrote)]_vars
+IsOp(l) == l.op \in {"op", "gen_next"}
+GuardFirst == [][(IsOp(last') /\ ~available /\ (last'.op = "gen_next" => last'.was = "fresh"))
+                   => (last'.out \in {"AdbConnectionError", "DevicePathInvalidError", "raises"} /\ ~last'.wrote)]_vars
+NothingSentUnlessConnected == [][~available => (last'.op \in {"connect_ok", "connect_fail"} \/ (last'.op = "gen_next" /\ last'.was = "stale") \/ ~last'.wrote)]_vars
 EmptyPath == [][(last'.op = "op" /\ last'.empty) => (last'.out \in {"AdbConnectionError", "DevicePathInvalidError"} /\ ~last'.wrote)]_vars
-AvailableExactly == [][available' = (last'.op = "connect_ok" \/ (available /\ last'.op = "op"))]_vars
-View == available
-EmitEdge == PrintT(<<"EDGE", ToJson([from |-> available, op |-> last', to |-> available'])>>)
+AvailableExactly == [][available' = (last'.op = "connect_ok" \/ (available /\ last'.op \in {"op", "gen_create", "gen_next"}))]_vars
+FreshGenIsAnOperation == [][(last'.op = "gen_next" /\ last'.was = "fresh" /\ ~available) => (last'.out = "AdbConnectionError" /\ ~last'.wrote)]_vars
+View == <<available, gen>>
+EmitEdge == PrintT(<<"EDGE", ToJson([from |-> [a |-> available, g |-> gen], op |-> last', to |-> [a |-> available', g |-> gen']])>>)
 =============================================================================
